@@ -38,6 +38,15 @@ import (
 
 func init() { register("c18", runC18) }
 
+func x3(k uint64) (e bn254fr.Element) {
+	e.SetUint64(k * 1000003)
+	e.Exp(e, big.NewInt(5))
+	return
+}
+
+func g1GenAff() bn254.G1Affine { _, _, a, _ := bn254.Generators(); return a }
+func g2GenAff() bn254.G2Affine { _, _, _, a := bn254.Generators(); return a }
+
 type subject struct {
 	reset     func() // optional: re-creates the shared objects at the start of every round
 	concFirst bool   // the first use of the (fresh) shared objects is concurrent
@@ -385,6 +394,41 @@ func bn254Subjects(r *Rng) []*subject {
 				}})
 			}
 		}
+	}
+	// more decoders over shared bytes: keys, signatures, vectors, target-group elements
+	{
+		epub := ek.PublicKey.Bytes()
+		subs = append(subs, &subject{name: "bn254.eddsa.PublicKey.SetBytes", shared: []any{epub}, run: func(int) any {
+			var pk bn254eddsa.PublicKey
+			n, err := pk.SetBytes(epub)
+			return []any{n, err == nil, &pk.A}
+		}})
+		subs = append(subs, &subject{name: "bn254.eddsa.Signature.SetBytes", shared: []any{esig}, run: func(int) any {
+			var sg bn254eddsa.Signature
+			n, err := sg.SetBytes(esig)
+			return []any{n, err == nil, &sg.R, sg.S[:]}
+		}})
+		cpubb := ck.PublicKey.Bytes()
+		subs = append(subs, &subject{name: "bn254.ecdsa.PublicKey.SetBytes", shared: []any{cpubb}, run: func(int) any {
+			var pk bn254ecdsa.PublicKey
+			n, err := pk.SetBytes(cpubb)
+			return []any{n, err == nil, &pk.A}
+		}})
+		vec := bn254fr.Vector{x3(1), x3(2), x3(3), x3(4), x3(5)}
+		vb, _ := vec.MarshalBinary()
+		subs = append(subs, &subject{name: "bn254.fr.Vector.UnmarshalBinary", shared: []any{vb}, run: func(int) any {
+			var v bn254fr.Vector
+			err := v.UnmarshalBinary(vb)
+			return []any{err == nil, []bn254fr.Element(v)}
+		}})
+		gt, _ := bn254.Pair([]bn254.G1Affine{g1GenAff()}, []bn254.G2Affine{g2GenAff()})
+		gb := gt.Bytes()
+		gtb := gb[:]
+		subs = append(subs, &subject{name: "bn254.GT.SetBytes", shared: []any{gtb}, run: func(int) any {
+			var z bn254.GT
+			err := z.SetBytes(gtb)
+			return []any{err == nil, &z}
+		}})
 	}
 	// element functions going through the big.Int scratch pool
 	var x bn254fr.Element
